@@ -558,7 +558,7 @@ Proof.
   rewrite !wrapper_caches_invisible, sp_run_app. reflexivity.
 Qed.
 
-(* ... which the tree before the repair of RemoveAttribute does not do *)
+(* ... which the tree before the repair of RemoveAttribute did not do *)
 Lemma remove_style_pinned_refuted :
   exists ops n, w_run false ops (fresh n) <> sp_run ops n.
 Proof.
